@@ -745,7 +745,14 @@ theorem eval_P (fuel : Nat) : GP e0 (eval env fuel) := by
         | internalSyntax =>
           simp only [programConvert, Outcome.raise.injEq] at ho
           exact Prov.of_ne (lit_ne hfor (Or.inr (Or.inl ho.symm)))
-        | _ => simp only [programConvert, Outcome.raise.injEq] at ho; subst ho; exact hp
+        | _ =>
+          simp only [programConvert, Outcome.raise.injEq] at ho; subst ho
+          refine hp.mono (LogExt.refl _) ?_
+          unfold programExit
+          simp only [programConvert]
+          split
+          · exact ⟨[Ev.rollback], rfl⟩
+          · exact LogExt.refl _
     · exfalso
       simp only [Prod.mk.injEq] at heq
       have := heq.1
